@@ -57,6 +57,12 @@ def make_tree():
         "bad/query.graphql": "query Op { me { id ", "bad/schema.graphql": "type Q { version: ",
         "bad/schema.txt": schema_a.sdl(),
     }
+    # many/: twelve small, pairwise different (schema, query) pairs - more distinct files than any fixed-size cache holds
+    os.makedirs(os.path.join(TREE, "many"), exist_ok=True)
+    for k in range(12):
+        sch = gql.Schema([gql.obj("Q", [("version", "Int!"), ("mark%d" % k, "String")]), gql.enum("E%d" % k, ["A%d" % k, "B"])], {"query": "Q"})
+        files["many/s%d.graphql" % k] = sch.sdl()
+        files["many/q%d.graphql" % k] = gql.render_doc(Doc([Op("query", "Op%d" % k, [Field("version"), Field("mark%d" % k)])]))
     for rel, text in files.items():
         with open(os.path.join(TREE, rel), "w") as f:
             f.write(text)
@@ -99,6 +105,7 @@ def alphabet(files):
         "M2": call("dirA/schema.graphql", "dirM/query.graphql", options={"mode": "derive", "struct_ident": "Second", "operation_name": "Second",
                                                                           "query_file": P("dirM/query.graphql"), "schema_file": P("dirA/schema.graphql")}),
         "missQ": call("dirA/schema.graphql", "dirA/nope.graphql"),
+        **{"N%d" % k: call("many/s%d.graphql" % k, "many/q%d.graphql" % k) for k in range(12)},
         "badQ": call("dirA/schema.graphql", "bad/query.graphql"),
         "missS": call("dirA/nope.graphql", "dirA/query.graphql"),
         "badS": call("bad/schema.graphql", "dirA/query.graphql"),
@@ -155,10 +162,11 @@ def run(tier):
     build_workers()
     files = make_tree()
     sigma = alphabet(files)
-    names = list(sigma)
+    many = ["N%d" % k for k in range(12)]
+    names = [n for n in sigma if n not in many]
     # ------------------------------------------------------------ solo outcomes (fresh process each, 3 times)
     solo = {}
-    for n in names:
+    for n in names + many:
         seen = set()
         for _ in range(3):
             r = run_history([sigma[n]])
@@ -168,7 +176,7 @@ def run(tier):
         if len(seen) != 1:
             rep.violation("solo_outcome_not_reproducible", {"call": n}, sorted(map(str, seen)))
         solo[n] = sorted(seen, key=str)[0]
-    log("[C08] solo outcomes: " + ", ".join("%s=%s" % (n, solo[n][0]) for n in names))
+    log("[C08] solo outcomes: " + ", ".join("%s=%s" % (n, solo[n][0]) for n in names + many[:1]))
 
     def check_history(hist, res, where):
         """Compare every call of the history with its solo outcome."""
@@ -217,6 +225,15 @@ def run(tier):
     else:
         sub = ["A", "A'", "B", "AqBs", "missQ", "badS", "Aopt", "invQ", "BqCs", "M1", "M2"]
         hist_jobs += [list(h) for h in itertools.product(sub, repeat=4)]
+    # long histories over many distinct files: load them all (in several orders), then ask for each again - interleaved with
+    # the ordinary calls; every answer must still be the solo one
+    orders = [many, many[::-1], many[6:] + many[:6], many[::2] + many[1::2]]
+    for o in orders:
+        hist_jobs.append(list(o) + list(o))
+        hist_jobs.append(list(o) + list(o[::-1]))
+        hist_jobs.append(["A", "B"] + list(o) + ["A", "B", "A'"] + list(o[:4]))
+        for cut in (8, 9, 10):
+            hist_jobs.append(list(o[:cut]) + list(o[:cut]))
     hres = parallel_map(lambda h: run_history([sigma[x] for x in h]), hist_jobs)
     for h, res in zip(hist_jobs, hres):
         check_history(h, res, "unrolled")
@@ -340,7 +357,7 @@ def run(tier):
         "schedules_with_switch": switches, "schedules_replayed": replayed, "preemption_bound": bound,
         "thread_programs": len(programs),
         "sampling_supplement_16_free_threads": {"processes": free_runs, "calls": free_calls, "note": "sampling, not part of the exhaustive claim"},
-        "solo_outcomes": {n: solo[n][0] for n in names},
+        "solo_outcomes": {n: solo[n][0] for n in names + many},
         "exhaustive": bool(fixpoint),
         "samples": [{"history": h} for h in pick_samples(hist_jobs, 3)] + [{"state_reached_by": v} for v in pick_samples(list(seen_states.values()), 3)]
                    + [{"threads": p} for p in pick_samples(programs, 2)],
